@@ -294,7 +294,7 @@ def run_case(case):
     caps = ['execution cap 60000 hit for %s' % case] if ex['capped'] else []
     return dict(viol=viols, obs=repr(sorted(outcomes))[:3000], states=list(outcomes), nontrivial=ex['executions'] > 1, ntkey=repr(case),
                 evals=ex['executions'], transitions=ex['executions'] * max(1, ex['max_points']), caps=caps,
-                extra={'schedules': ex['executions'], 'max_scheduling_points_per_execution': ex['max_points'], 'branching_points_default_schedule': ex['branching_points_default']})
+                extra={'schedules': ex['executions'], 'max_scheduling_points_per_execution': ex['max_points'], 'max_branching_points_default_schedule': ex['branching_points_default']})
 
 
 def replay_one(case, violation):
